@@ -9,6 +9,10 @@ WORKLOAD = [['store', 'a'], ['store', 'b'], ['overwrite', 'a'], ['store', 'b'], 
 
 def run(ctx):
     ctx.level = 'fault_enumeration'
+    # unit part (rock): the real Rock::SwapDir/IoState/Rebuild under a driver, every write boundary + partial writes, TLC-validated
+    import C16u
+    C16u.run_unit(ctx)
+    unit_cov = dict(ctx.cov)
     tree = squidctl.ensure_binary(ctx)
     shim = diskrun.build_shim(ctx)
     scens, res = escen.tlc_scenarios(ctx, os.path.join(SPEC, 'RestartScen.tla'), os.path.join(SPEC, 'MC_RestartScen.cfg'), key=None)
@@ -58,15 +62,15 @@ def run(ctx):
     for o in out:
         if not o['alive_after']:
             ctx.violation('squid did not survive the restart after a kill at write %s (%s)' % (o['crash_at'], o['kind']), {'kind': 'restart-failed', 'scenario': o})
-    ctx.cov['evaluations'] = len(out)
-    ctx.cov['distinct_nontrivial'] = len({(o['kind'], o['same_second'], o['crash_at'], o['partial']) for o in out})
-    ctx.cov['impl_traces'] = len(out)
+    ctx.cov['e_level_histories'] = len(out)
+    for k, n in (('evaluations', len(out)), ('distinct_nontrivial', len({(o['kind'], o['same_second'], o['crash_at'], o['partial']) for o in out})), ('impl_traces', len(out))):
+        ctx.cov[k] = (unit_cov.get(k, 0) if isinstance(unit_cov.get(k, 0), int) else 0) + n
     ctx.cov['crash_points'] = {k: sorted({o['crash_at'] for o in out if o['kind'] == k and o['crash_at']}) for k in {k for k, _ in kinds}}
     ctx.cov['hits_after_kill'] = sum(1 for o in out for e in o['ev'] if e['e'] == 'After' and not e['contacted'] and e['hv'] >= 0)
     ctx.cov['exhaustive'] = bool(ctx.thorough)
     for o in out[1:3]:
         ctx.sample({'store': o['kind'], 'crash_at': o['crash_at'], 'partial_write_bytes': o['partial'], 'events': o['ev']})
-    ctx.cov['rule'] = ('fault points = every write()/pwrite() squid issues into the cache directory while running a fixed store/overwrite/purge workload (counted by an LD_PRELOAD shim in a dry run); '
+    ctx.cov['rule'] = (str(unit_cov.get('rule', '')) + ' || E level: fault points = every write()/pwrite() squid issues into the cache directory while running a fixed store/overwrite/purge workload (counted by an LD_PRELOAD shim in a dry run); '
                        'quick: 10 sampled points per store type, thorough: all; at the chosen write squid is killed (optionally after a partial write), restarted on the same directory, and every '
                        'key is requested; TLC validates against Restart.tla (phase killed): what is served from the cache is exactly one complete version produced before the kill.')
     ctx.assumptions += ['process kill at a write boundary (optionally a short write); no power-loss reordering below the page cache', 'diskd is excluded (its writes happen in a helper process)']
